@@ -183,7 +183,9 @@ fn pick_keys(r: &mut Rng) -> Vec<u32> {
 fn build_pair(r: &mut Rng, out: &mut String, force_relation: bool) -> &'static str {
     writeln!(out, "new b0").unwrap();
     writeln!(out, "new b1").unwrap();
-    let mode = if r.chance(1, 14) {
+    let mode = if r.chance(1, 12) {
+        203 // both operands from the shared catalogue
+    } else if r.chance(1, 14) {
         202 // array chunk against an array chunk that holds all of its values but (at most) one
     } else if r.chance(1, 16) {
         97 // a completely full chunk on one side or on both
@@ -502,6 +504,22 @@ fn build_pair(r: &mut Rng, out: &mut String, force_relation: bool) -> &'static s
                 3 => writeln!(out, "remove b1 {}", vals[vals.len() / 2]).unwrap(),
                 _ => {}
             }
+            "b1"
+        }
+        // both operands from the shared catalogue (gen/zoo.rs): an independent pair, or the second a variation of the first
+        // (one run dropped / shortened by a value / one value added / every other run): subsets, supersets, near-equal sets
+        203 => {
+            let (mut t, _) = super::zoo::zoo_target(r);
+            if super::zoo::card(&t) > 140000 {
+                t.truncate(1);
+            }
+            let mut t2 = super::zoo::vary(r, &t);
+            if super::zoo::card(&t2) > 140000 {
+                t2.truncate(1);
+            }
+            let (l, rr) = if r.chance(1, 2) { ("b0", "b1") } else { ("b1", "b0") };
+            super::zoo::build_target(r, out, l, &t);
+            super::zoo::build_target(r, out, rr, &t2);
             "b1"
         }
         // near-subset inside one representation: b1 = an array chunk with values from the boundary pool (often 0 and/or 65535,
